@@ -200,57 +200,6 @@ def same_meaning(target, ref, got):
 # printed-form repairs used as *models* of known findings
 
 
-def glued(cls):
-    """An identifier-like literal immediately followed by an operand or another identifier."""
-    from ppci.arch.encoding import Operand
-
-    s = cls.syntax.syntax
-    for a, b in zip(s, s[1:]):
-        if isinstance(a, str) and a.isidentifier():
-            if isinstance(b, Operand) or (isinstance(b, str) and b.isidentifier()):
-                return True
-    return False
-
-
-def any_glued(obj):
-    from ppci.arch.encoding import Constructor
-
-    if glued(type(obj)):
-        return True
-    for fa in obj.syntax.formal_arguments:
-        v = getattr(obj, fa._name)
-        if isinstance(v, Constructor) and v.syntax and any_glued(v):
-            return True
-    return False
-
-
-def render(obj, unglue=False, braces=False):
-    """Syntax.render with the repairs of KF1 (separator after an identifier) / KF3 (braces)."""
-    from ppci.arch.encoding import Constructor, Operand
-
-    out = []
-    prev_ident = False
-    for e in obj.syntax.syntax:
-        if isinstance(e, Operand):
-            v = getattr(obj, e._name)
-            if isinstance(v, Constructor) and v.syntax:
-                t = render(v, unglue, braces)
-            else:
-                t = str(v)
-                if braces and isinstance(v, (set, frozenset)) and not t.lstrip().startswith("{"):
-                    t = "{" + t + "}"
-            if unglue and prev_ident:
-                out.append(" ")
-            out.append(t)
-            prev_ident = False
-        else:
-            if unglue and prev_ident and e.isidentifier():
-                out.append(" ")
-            out.append(e)
-            prev_ident = e.isidentifier()
-    return "".join(out)
-
-
 def has_bare_set(ins):
     for fa in ins.syntax.formal_arguments:
         v = getattr(ins, fa._name)
@@ -299,9 +248,9 @@ def evaluate(desc, defer=None):
     causes = []
     res, err = _try_asm(target, text)
     used_text = text
-    if (res is None or res[0] != ref) and any_glued(ins):
+    if (res is None or res[0] != ref) and G.any_glued(ins):
         # the glued text is either rejected or lexed differently ('zeropage3,x' -> label zeropage3)
-        t2 = render(ins, unglue=True)
+        t2 = G.render(ins, unglue=True)
         r2, e2 = _try_asm(target, t2)
         if r2 is not None and (res is None or r2[0] == ref):
             causes.append(KF_GLUE)
@@ -309,7 +258,7 @@ def evaluate(desc, defer=None):
                 err = "assembles to %s relocs %s" % res[0]
             res, used_text = r2, t2
     if res is None and has_bare_set(ins):
-        t2 = render(ins, braces=True)
+        t2 = G.render(ins, braces=True)
         r2, e2 = _try_asm(target, t2)
         if r2 is not None:
             causes.append(KF_BRACES)
@@ -471,7 +420,7 @@ def classify(case, msg):
 def class_exclusion(target, cid):
     """Finding id when every instance of the class runs into an open finding."""
     cls = G.class_by_id(target, cid)
-    if glued(cls):
+    if G.glued(cls):
         return KF_GLUE
     fam = _family(target)
     sib = COPIED.get((fam, cid))
@@ -507,7 +456,7 @@ def ctor_exclusions(target, cid):
     cls = G.class_by_id(target, cid)
     out = {}
     for sub in _all_ctors(cls):
-        if glued(sub):
+        if G.glued(sub):
             out[sub.__name__] = KF_GLUE
     if target == "msp430":
         out["SmallConstSrc"] = KF_MSP430_CONST
